@@ -215,6 +215,8 @@ def real_ubxbulk(line):
     for op in ops.split(';'):
         r.step(op)
     toks = r.result().split(' ')
+    if 'bad-op' in toks:
+        return 'bad-op'
     if toks[-1] == 'stable=false':
         return 'PAYLOADS-CHANGED ' + summarise(toks[:-1])
     return summarise(toks[:-1] if toks[-1].startswith('stable=') else toks)
